@@ -107,10 +107,12 @@ def gen_block(rng, depth, budget):
         r = rng.random()
         if r < 0.36:
             steps.append(("request",))
-        elif r < 0.4:
+        elif r < 0.39:
             # the device reboots: the next authenticated request is answered by a
             # notInTimeWindow report first and sent again
             steps.append(("reboot",))
+        elif r < 0.43:
+            steps.append(("prepared", gen_kwargs(rng), gen_kwargs(rng), gen_kwargs(rng)))
         elif r < 0.55:
             steps.append(("configure", gen_kwargs(rng)))
         elif r < 0.65:
@@ -134,6 +136,8 @@ def shape(steps):
             out.append(("configure", tuple(sorted(s[1]))))
         elif s[0] == "unknown":
             out.append(("unknown", s[1]))
+        elif s[0] == "prepared":
+            out.append(("prepared", tuple(sorted(s[1])), tuple(sorted(s[2])), tuple(sorted(s[3]))))
         else:
             out.append(s[0])
     return tuple(out)
@@ -251,6 +255,39 @@ class Harness:
                 self.check_new_events(where)
                 if res[0] != "ok" and not self.failed:
                     self.viol("%s: request failed: %r" % (where, res[1]))
+            elif st[0] == "prepared":
+                # the context-manager objects are created FIRST (all of them, then a
+                # permanent configure() in between) and entered later, nested: each block
+                # overrides its own settings on top of what is in force when it is ENTERED
+                _, kw1, kw2, kwc = st
+                cm1 = self.client.reconfigure(**self.real_kwargs(kw1))
+                cm2 = self.client.reconfigure(**self.real_kwargs(kw2))
+                self.client.configure(**self.real_kwargs(kwc))
+                self.cur().update(kwc)
+                self.check_config(where + ">configure-between")
+                with cm1:
+                    new1 = dict(self.cur())
+                    new1.update(kw1)
+                    self.model.append(new1)
+                    self.check_config(where + ">enter-prepared-1")
+                    with cm2:
+                        new2 = dict(new1)
+                        new2.update(kw2)
+                        self.model.append(new2)
+                        self.check_config(where + ">enter-prepared-2")
+                        res = rig.outcome(lambda: drive(self.client.get(OID((1, 3, 6, 1, 2, 1, 1, 1, 0)))))
+                        self.check_new_events(where + ">prepared-inner")
+                        if res[0] != "ok" and not self.failed:
+                            self.viol("%s: request inside prepared blocks failed: %r" % (where, res[1]))
+                        self.model.pop()
+                    self.check_config(where + ">exit-prepared-2")
+                    self.model.pop()
+                self.check_config(where + ">exit-prepared-1")
+                res = rig.outcome(lambda: drive(self.client.get(OID((1, 3, 6, 1, 2, 1, 1, 1, 0)))))
+                self.check_new_events(where + ">after-prepared")
+                if res[0] != "ok" and not self.failed:
+                    self.viol("%s: request after prepared blocks failed: %r" % (where, res[1]))
+                self.R.mon["prepared_blocks_checked"] += 1
             elif st[0] == "reboot":
                 self.agent.reboot()
                 self.R.mon["reboots_inside_histories"] += 1
